@@ -2,9 +2,9 @@ package main
 
 import (
 	"fmt"
-	"sort"
 	"go/token"
 	"go/types"
+	"sort"
 	"strings"
 
 	"golang.org/x/tools/go/ssa"
@@ -710,4 +710,40 @@ func orNone(s string) string {
 		return "no transformation"
 	}
 	return s
+}
+
+// ruleAnalyzerStateless (A-STATELESS): the analyzer is a function of what it is handed.  The server keeps one
+// Analyzer for all documents and runs it for every change; a map, slice or pointer field in it is state that one
+// analysis leaves for the next (a memo of per-transaction diagnostics, a table of per-file symbols) and makes
+// answers depend on what was analysed before.  Such a field is reported as undecided: its key completeness and
+// its invalidation on every route by which a file's content changes are not established by any rule here.
+func ruleAnalyzerStateless(c *Ctx) {
+	pk := c.P.ByRel["internal/analyzer"]
+	if pk == nil {
+		c.undecided("A-STATELESS", "analyzer", "analyzer package", token.NoPos, "package internal/analyzer not found")
+		return
+	}
+	obj := pk.Types.Scope().Lookup("Analyzer")
+	if obj == nil {
+		c.undecided("A-STATELESS", "analyzer", "analyzer type", token.NoPos, "type analyzer.Analyzer not found")
+		return
+	}
+	st, ok := obj.Type().Underlying().(*types.Struct)
+	if !ok {
+		c.ok("A-STATELESS", "analyzer.Analyzer", "the analyzer carries no state", obj.Pos(), "not a struct")
+		return
+	}
+	n := 0
+	for i := 0; i < st.NumFields(); i++ {
+		f := st.Field(i)
+		switch f.Type().Underlying().(type) {
+		case *types.Map, *types.Slice, *types.Pointer, *types.Chan, *types.Interface:
+			n++
+			c.undecided("A-STATELESS", "analyzer.Analyzer", "field "+f.Name(), f.Pos(),
+				"the analyzer, which the server shares between all documents and runs for every change, carries the field "+f.Name()+" ("+types.TypeString(f.Type(), nil)+") from one analysis to the next: whether what it remembers is keyed by everything it depends on and dropped on every route by which a file's content changes (didChange, didSave, an include that leaves and re-enters the tree, a reload from disk) is not established - answers may depend on what was analysed before")
+		}
+	}
+	if n == 0 {
+		c.ok("A-STATELESS", "analyzer.Analyzer", "the analyzer carries no state", obj.Pos(), fmt.Sprintf("%d fields, none of them a map, slice, pointer, channel or interface", st.NumFields()))
+	}
 }
